@@ -1,5 +1,499 @@
-import CoxeterVerif.Lemmas.Solid
-import CoxeterVerif.Model.Structure
-import CoxeterVerif.Spec.Structure
-/-! placeholder while the harness is being brought up -/
-theorem c07_placeholder : Struct.numEdgesConvex 8 6 = 12 := by decide
+import CoxeterVerif.Lemmas.Structure
+/-!
+  # C07 — face, normal, neighbour and edge structure of polyhedra is consistent
+
+  Combinatorial theorems are over ALL face lists (any number of faces, any face lengths, any
+  vertex labels); geometric ones over ℝ for all vertex positions.
+
+  Proved here
+  * `edges_once`            — `Polyhedron.edges` on a closed oriented face list
+  * `neighbors_iff_shared_edge`, `neighbors_symm`, `neighbors_length`
+  * `face_equation_contains_first_vertices`, `face_equation_unit_normal`,
+    `face_equation_outward_ccw`, `face_equation_flip`
+  * `propagation_flips_consistently_partial` — the traversal of `_sort_simplices` /
+    `Polyhedron.sort_faces` links every visited face to the face it was discovered from
+  * `propagation_orients`, `propagation_visits_component`, `propagation_orients_all` — on an
+    orientable, connected face graph the traversal returns the consistent orientation up to
+    one global flip
+  * `reverse_all_negates_volume`, `sort_simplices_volume_nonneg`, `poly_flip_negates_volume`
+  * `sorted_unique_spec`, `merged_faces_union`, `cp_sort_face_perm`, `dihedral_symm`
+
+  NOT provable here (stated in notes/C07.md and in the claim): Euler's relation `V − E + F = 2`
+  and "the faces are THE facets of the convex hull" rest on Qhull's output; they are enforced
+  per instance by the oracle certificate of the harness (closed oriented surface of supporting
+  facets, exact over ℚ for integral inputs).
+-/
+open Struct StructLemmas Scalar
+set_option maxRecDepth 4000
+
+/-! ### edges -/
+
+/-- **C07 edges.** For a closed oriented face list (no directed edge twice, every directed edge
+has its reverse partner, no loops) `Polyhedron.edges`
+* contains only pairs `i < j`,
+* is strictly lexicographically sorted (hence duplicate free),
+* contains `(a, b)` with `a < b` exactly when `{a, b}` is an edge of some face — so every
+  undirected edge is listed exactly once —
+* and `2·|edges| = Σ |f|`. -/
+theorem edges_once (F : List Face) (h : StructSpec.ClosedOriented F) :
+    (∀ e ∈ edges F, e.1 < e.2) ∧
+    (edges F).Pairwise StructSpec.LexLt ∧
+    (∀ a b, a < b → ((a, b) ∈ edges F ↔ StructSpec.IsEdge F a b)) ∧
+    (∀ a b, a < b → StructSpec.IsEdge F a b → (edges F).count (a, b) = 1) ∧
+    2 * (edges F).length = (F.map List.length).sum := by
+  have hperm := edges_perm F
+  have hmem : ∀ e, e ∈ edges F ↔ (e ∈ StructSpec.allDir F ∧ e.1 < e.2) := by
+    intro e; rw [hperm.mem_iff, List.mem_filter]; simp
+  have hnd : (edges F).Nodup := hperm.nodup_iff.mpr (h.nodup.filter _)
+  have hiff : ∀ a b, a < b → ((a, b) ∈ edges F ↔ StructSpec.IsEdge F a b) := by
+    intro a b hab
+    rw [hmem]
+    unfold StructSpec.IsEdge
+    constructor
+    · rintro ⟨h1, _⟩; exact Or.inl h1
+    · rintro (h1 | h1)
+      · exact ⟨h1, hab⟩
+      · exact ⟨h.rev _ h1, hab⟩
+  refine ⟨fun e he => ((hmem e).mp he).2, ?_, hiff, ?_, ?_⟩
+  · have hs : (edges F).Pairwise (fun x y => lexLe x y = true) :=
+      sortBy_pairwise lexLe lexLe_total lexLe_trans _
+    exact (hs.and hnd).imp (fun hxy => lexLt_of_lexLe_ne hxy.1 hxy.2)
+  · intro a b hab hE
+    exact List.count_eq_one_of_mem hnd ((hiff a b hab).mpr hE)
+  · rw [hperm.length_eq, ← allDir_length, halves_cover h.noLoop, ← halves_equal h.nodup h.rev]
+    ring
+
+/-- `Polyhedron.num_edges` is the number of undirected edges: half the number of face corners -/
+theorem num_edges_half_corners (F : List Face) (h : StructSpec.ClosedOriented F) :
+    2 * numEdges F = (F.map List.length).sum := (edges_once F h).2.2.2.2
+
+/-! ### neighbours -/
+
+/-- **C07 neighbours.** When `_find_neighbors` succeeds (no `AssertionError`), `j` is listed as a
+neighbour of `i` exactly when `i ≠ j` are faces that share an (undirected) edge. -/
+theorem neighbors_iff_shared_edge {F : List Face} {N : List (List Nat)} (h : findNeighbors F = .ok N)
+    (i j : Nat) :
+    j ∈ N.getD i [] ↔
+      (i < F.length ∧ j < F.length ∧ i ≠ j ∧ StructSpec.SharesEdge (F.getD i []) (F.getD j [])) :=
+  findNeighbors_spec h i j
+
+/-- **C07 neighbours are symmetric.** -/
+theorem neighbors_symm {F : List Face} {N : List (List Nat)} (h : findNeighbors F = .ok N) (i j : Nat) :
+    j ∈ N.getD i [] ↔ i ∈ N.getD j [] := by
+  rw [findNeighbors_spec h i j, findNeighbors_spec h j i]
+  constructor
+  · rintro ⟨a, b, c, d⟩; exact ⟨b, a, c.symm, SharesEdge_symm d⟩
+  · rintro ⟨a, b, c, d⟩; exact ⟨b, a, c.symm, SharesEdge_symm d⟩
+
+/-- one neighbour row per face -/
+theorem neighbors_length {F : List Face} {N : List (List Nat)} (h : findNeighbors F = .ok N) :
+    N.length = F.length := findNeighbors_length h
+
+/-! ### plane equations -/
+
+noncomputable section
+
+/-- **C07 equations contain the face.** The plane returned by `_find_equations` for the vertices
+`v0 v1 v2` passes through all three (for every input, degenerate or not). -/
+theorem face_equation_contains_first_vertices (v0 v1 v2 : V3 ℝ) :
+    let e := Poly3.faceEquation v0 v1 v2
+    StructSpec.OnPlane e.1 e.2 v0 ∧ StructSpec.OnPlane e.1 e.2 v1 ∧ StructSpec.OnPlane e.1 e.2 v2 := by
+  obtain ⟨ax, ay, az⟩ := v0; obtain ⟨bx, b_y, bz⟩ := v1; obtain ⟨cx, cy, cz⟩ := v2
+  simp only [Poly3.faceEquation, StructSpec.OnPlane]
+  set N := V3.norm (V3.cross ((⟨cx, cy, cz⟩ : V3 ℝ) - ⟨bx, b_y, bz⟩) (⟨ax, ay, az⟩ - ⟨bx, b_y, bz⟩)) with hN
+  by_cases h0 : N = 0
+  · rw [h0]; refine ⟨?_, ?_, ?_⟩ <;> unfold_model <;> simp
+  · refine ⟨?_, ?_, ?_⟩ <;> unfold_model <;> field_simp <;> ring
+
+/-- **C07 unit normal.** For non-collinear `v0 v1 v2` the normal of `_find_equations` has length 1. -/
+theorem face_equation_unit_normal (v0 v1 v2 : V3 ℝ)
+    (hnd : V3.norm (V3.cross (v2 - v1) (v0 - v1)) ≠ 0) :
+    V3.normSq (Poly3.faceEquation v0 v1 v2).1 = 1 := by
+  simp only [Poly3.faceEquation]
+  set n := V3.cross (v2 - v1) (v0 - v1) with hn
+  have hsq := norm_sq_eq n
+  have : V3.normSq (V3.sdiv n (V3.norm n)) = V3.normSq n / (V3.norm n * V3.norm n) := by
+    unfold V3.normSq V3.dot
+    simp only [V3.sdiv_x, V3.sdiv_y, V3.sdiv_z]
+    field_simp
+  rw [this, hsq]
+  have : V3.normSq n ≠ 0 := by rw [← hsq]; exact mul_ne_zero hnd hnd
+  exact div_self this
+
+/-- **C07 outward for counter-clockwise order.** If the first three vertices of a face appear
+counter-clockwise to an observer on the side opposite to `p` (tetrahedron `p v0 v1 v2` positively
+oriented — for `p` inside the solid: counter-clockwise seen from outside), then `p` is strictly on
+the negative side of the plane of `_find_equations`, i.e. the normal points away from `p`
+(outward), and the normal is a unit vector. -/
+theorem face_equation_outward_ccw (p v0 v1 v2 : V3 ℝ) (h : StructSpec.CcwAwayFrom p v0 v1 v2) :
+    let e := Poly3.faceEquation v0 v1 v2
+    V3.dot e.1 p + e.2 < 0 ∧ V3.normSq e.1 = 1 := by
+  have hdet := det_eq_dot_raw p v0 v1 v2
+  unfold StructSpec.CcwAwayFrom at h
+  simp only [Scalar.lit, Scalar.ofNat_real, Nat.cast_zero] at h
+  rw [hdet, ← faceEquation_raw] at h
+  set n := V3.cross (v2 - v1) (v0 - v1) with hn
+  have hnpos : 0 < V3.norm n := by
+    rcases (norm_nonneg n).lt_or_eq with h1 | h1
+    · exact h1
+    · exfalso
+      have hz : V3.normSq n = 0 := by rw [← norm_sq_eq, ← h1]; ring
+      unfold V3.normSq V3.dot at hz
+      have hx : n.x = 0 := by nlinarith [sq_nonneg n.x, sq_nonneg n.y, sq_nonneg n.z]
+      have hy : n.y = 0 := by nlinarith [sq_nonneg n.x, sq_nonneg n.y, sq_nonneg n.z]
+      have hzz : n.z = 0 := by nlinarith [sq_nonneg n.x, sq_nonneg n.y, sq_nonneg n.z]
+      unfold V3.dot at h
+      rw [hx, hy, hzz] at h
+      simp at h
+  refine ⟨?_, face_equation_unit_normal v0 v1 v2 hnpos.ne'⟩
+  simp only [Poly3.faceEquation, ← hn]
+  have key : V3.dot (V3.sdiv n (V3.norm n)) p + -(V3.dot (V3.sdiv n (V3.norm n)) v0)
+      = -(V3.dot n (v0 - p)) / V3.norm n := by
+    unfold V3.dot
+    simp only [V3.sdiv_x, V3.sdiv_y, V3.sdiv_z, V3.sub_x, V3.sub_y, V3.sub_z]
+    field_simp
+    ring
+  rw [key]
+  exact div_neg_of_neg_of_pos (by linarith) hnpos
+
+/-- reversing the vertex order of a face negates its plane equation (what the global flip of
+`Polyhedron.sort_faces` does with `equations[i] *= -1`) -/
+theorem face_equation_flip (v0 v1 v2 : V3 ℝ) :
+    let e := Poly3.faceEquation v0 v1 v2
+    let e' := Poly3.faceEquation v2 v1 v0
+    e'.1 = -(e.1) ∧ (StructSpec.OnPlane e'.1 e'.2 v0 ∧ StructSpec.OnPlane e'.1 e'.2 v1 ∧
+      StructSpec.OnPlane e'.1 e'.2 v2) := by
+  refine ⟨?_, ?_⟩
+  · simp only [Poly3.faceEquation]
+    have hc : V3.cross (v0 - v1) (v2 - v1) = -(V3.cross (v2 - v1) (v0 - v1)) := by
+      obtain ⟨ax, ay, az⟩ := v0; obtain ⟨bx, b_y, bz⟩ := v1; obtain ⟨cx, cy, cz⟩ := v2
+      ext <;> unfold_model <;> ring
+    have hnorm : V3.norm (-(V3.cross (v2 - v1) (v0 - v1))) = V3.norm (V3.cross (v2 - v1) (v0 - v1)) := by
+      unfold V3.norm V3.normSq V3.dot
+      simp only [V3.neg_x, V3.neg_y, V3.neg_z]
+      congr 1; ring
+    rw [hc, hnorm]
+    ext <;> simp only [V3.sdiv_x, V3.sdiv_y, V3.sdiv_z, V3.neg_x, V3.neg_y, V3.neg_z] <;> ring
+  · have := face_equation_contains_first_vertices v2 v1 v0
+    exact ⟨this.2.2, this.2.1, this.1⟩
+
+end
+
+/-! ### orientation propagation -/
+
+/-- **C07 propagation (partial).** After the traversal of `_sort_simplices` /
+`Polyhedron.sort_faces` (any neighbour lists, any faces, started at face 0):
+* every face is either unchanged or reversed;
+* every visited face `v ≠ 0` was discovered from a visited face `u ≠ v` whose neighbour list
+  contains `v`, and if `u` and `v` share an edge then (in their FINAL orientation) they traverse
+  a common edge in opposite directions.
+
+`_partial`: this is consistency along the discovery tree. What is missing for the full claim
+"all neighbouring faces are consistently oriented and the result is the outward orientation":
+(1) consistency across non-tree neighbour pairs needs orientability of the surface and that two
+faces share at most one edge (true for the boundary of a convex polyhedron — a fact about Qhull's
+output, checked per instance by the harness: `spec.closed_oriented` on the resulting faces);
+(2) that every face is reached needs connectedness of the neighbour graph;
+(3) that the volume-sign flip yields the OUTWARD orientation needs the geometry of the hull
+(`reverse_all_negates_volume` / `sort_simplices_volume_nonneg` give the sign part). -/
+theorem propagation_flips_consistently_partial (nbrs : List (List Nat)) (F : List Face) :
+    let st := propagate nbrs F
+    st.faces.length = F.length ∧
+    (∀ k, st.faces.getD k [] = F.getD k [] ∨ st.faces.getD k [] = (F.getD k []).reverse) ∧
+    (∀ v ∈ st.visited, v = 0 ∨ ∃ u ∈ st.visited, u ≠ v ∧ v ∈ nbrs.getD u [] ∧
+      (StructSpec.SharesEdge (st.faces.getD u []) (st.faces.getD v []) →
+        StructSpec.OppositeOn (st.faces.getD u []) (st.faces.getD v []))) := by
+  have h := propagate_inv nbrs F
+  exact ⟨h.len, h.orig, h.tree⟩
+
+/-- one step of the inner loop, on its own: orienting `nb` against `cur` makes them traverse a
+shared edge in opposite directions -/
+theorem orient_against_opposite (cur nb : Face) (h : StructSpec.SharesEdge cur nb) :
+    StructSpec.OppositeOn cur (orientAgainst (faceToEdges cur) nb) := by
+  have hl := orientAgainst_linked cur nb
+  apply hl
+  rcases orientAgainst_cases (faceToEdges cur) nb with h' | h'
+  · rw [h']; exact h
+  · rw [h']
+    obtain ⟨a, b, h1, h2⟩ := h
+    refine ⟨a, b, h1, ?_⟩
+    unfold StructSpec.Adj at h2 ⊢
+    rcases h2 with h2 | h2
+    · exact Or.inr (mem_dirEdges_reverse h2)
+    · exact Or.inl (mem_dirEdges_reverse h2)
+
+/-- reversing both faces keeps them free of common directed edges -/
+theorem consistent_reverse {f g : Face} (h : StructSpec.Consistent f g) :
+    StructSpec.Consistent f.reverse g.reverse := by
+  intro e he hf
+  obtain ⟨a, b⟩ := e
+  exact h (b, a) (mem_dirEdges_reverse_iff.mp he) (mem_dirEdges_reverse_iff.mp hf)
+
+/-- **C07 propagation reproduces the consistent orientation.** Suppose the surface is orientable
+in the sense that some choice `G` of "keep / reverse" per face makes every listed neighbour pair
+share an edge without a common directed edge (`RefOrientation`; for the boundary of a convex
+polyhedron with the neighbour lists of `_find_neighbors` or of Qhull this is the outward
+orientation). Then the traversal returns, on every face it visits, exactly `G` or exactly the
+reversal of `G` — one global choice `c` — so that all visited neighbour pairs are consistent, not
+only those of the discovery tree. The global choice is then fixed by the sign of the volume
+(`sort_simplices_volume_nonneg`). -/
+theorem propagation_orients (nbrs : List (List Nat)) (F G : List Face)
+    (href : StructSpec.RefOrientation nbrs F G) :
+    let st := propagate nbrs F
+    (∃ c : Bool, ∀ v ∈ st.visited, st.faces.getD v [] = StructSpec.flipIf c (G.getD v [])) ∧
+    (∀ u ∈ st.visited, ∀ v ∈ st.visited, v ∈ nbrs.getD u [] →
+      StructSpec.Consistent (st.faces.getD u []) (st.faces.getD v [])) := by
+  have h2 := propagate_inv2 nbrs F G href
+  refine ⟨h2.agree, ?_⟩
+  obtain ⟨c, hc⟩ := h2.agree
+  intro u hu v hv hnb
+  rw [hc u hu, hc v hv]
+  cases c with
+  | false => simpa [StructSpec.flipIf] using href.consistent u v hnb
+  | true => simpa [StructSpec.flipIf] using consistent_reverse (href.consistent u v hnb)
+
+/-- **C07 the traversal reaches the whole component of face 0** whenever it ends with an empty
+stack (the driver reports this flag for every instance; the fuel `Σ|nbrs[i]| + 2` always
+suffices in practice because every pass pops one entry and only unvisited faces are pushed). -/
+theorem propagation_visits_component (nbrs : List (List Nat)) (F : List Face)
+    (hdone : (propagate nbrs F).stack = []) (k : Nat) (hk : StructSpec.Reach nbrs k) :
+    k ∈ (propagate nbrs F).visited := by
+  induction hk with
+  | zero => exact zero_mem_visited nbrs F
+  | step _ hv ih => exact propagate_closed nbrs F hdone _ ih _ hv
+
+/-- **C07 propagation, complete form.** On a connected, consistently orientable face graph the
+traversal orients EVERY face like the reference orientation, up to one global flip. -/
+theorem propagation_orients_all (nbrs : List (List Nat)) (F G : List Face)
+    (href : StructSpec.RefOrientation nbrs F G) (hdone : (propagate nbrs F).stack = [])
+    (hconn : ∀ k, k < F.length → StructSpec.Reach nbrs k) :
+    ∃ c : Bool, ∀ k, k < F.length →
+      (propagate nbrs F).faces.getD k [] = StructSpec.flipIf c (G.getD k []) := by
+  obtain ⟨c, hc⟩ := (propagation_orients nbrs F G href).1
+  exact ⟨c, fun k hk => hc k (propagation_visits_component nbrs F hdone k (hconn k hk))⟩
+
+/-! ### global flip by the sign of the volume -/
+
+noncomputable section
+
+theorem triOf_reverse (verts : List (V3 ℝ)) (s : Face) (h : s.length = 3) :
+    triOf verts s.reverse = (triOf verts s).rev := by
+  match s, h with
+  | [a, b, c], _ => rfl
+
+/-- **C07 global flip.** Reversing every simplex (`simplices[:, ::-1]`) negates the signed volume
+`_calculate_signed_volume()`. -/
+theorem reverse_all_negates_volume (verts : List (V3 ℝ)) (S : List Face) (h3 : ∀ s ∈ S, s.length = 3) :
+    CP.signedVolume ((reverseAll S).map (triOf verts)) = -CP.signedVolume (S.map (triOf verts)) := by
+  rw [signedVolume_eq_sumOver, signedVolume_eq_sumOver]
+  unfold reverseAll sumOver
+  induction S with
+  | nil => simp
+  | cons s S ih =>
+    have := ih (fun t ht => h3 t (List.mem_cons_of_mem _ ht))
+    simp only [List.map_cons, List.sum_cons] at this ⊢
+    rw [this, triOf_reverse verts s (h3 s List.mem_cons_self), volPhi_oddCyclic.rev]
+    ring
+
+/-- **C07 `_sort_simplices` ends with non-negative signed volume** (for triangles), whatever the
+hull's neighbour lists and the start permutation were; and each output simplex is an input
+simplex or its reversal. -/
+theorem sort_simplices_volume_nonneg (verts : List (V3 ℝ)) (start : List Face) (nbrs : List (List Nat))
+    (h3 : ∀ s ∈ start, s.length = 3) :
+    0 ≤ CP.signedVolume ((sortSimplices verts start nbrs).map (triOf verts)) ∧
+    (∀ k, (sortSimplices verts start nbrs).getD k [] = start.getD k [] ∨
+          (sortSimplices verts start nbrs).getD k [] = (start.getD k []).reverse) := by
+  have hinv := propagate_inv nbrs start
+  have hlen3 : ∀ s ∈ (propagate nbrs start).faces, s.length = 3 := by
+    intro s hs
+    obtain ⟨k, hk, rfl⟩ := List.mem_iff_getElem.mp hs
+    have hk' : k < start.length := by rw [← hinv.len]; exact hk
+    have h0 := h3 _ (List.getElem_mem hk')
+    rcases hinv.orig k with h | h
+    · rw [List.getD_eq_getElem?_getD, List.getElem?_eq_getElem hk, List.getD_eq_getElem?_getD,
+        List.getElem?_eq_getElem hk'] at h
+      simp only [Option.getD_some] at h
+      rw [h]; exact h0
+    · rw [List.getD_eq_getElem?_getD, List.getElem?_eq_getElem hk, List.getD_eq_getElem?_getD,
+        List.getElem?_eq_getElem hk'] at h
+      simp only [Option.getD_some] at h
+      rw [h, List.length_reverse]; exact h0
+  unfold sortSimplices
+  simp only [Scalar.lit, Scalar.ofNat_real, Nat.cast_zero]
+  split_ifs with hneg
+  · refine ⟨?_, ?_⟩
+    · rw [reverse_all_negates_volume verts _ hlen3]; linarith
+    · intro k
+      have : (reverseAll (propagate nbrs start).faces).getD k [] =
+          ((propagate nbrs start).faces.getD k []).reverse := by
+        unfold reverseAll
+        simp only [List.getD_eq_getElem?_getD, List.getElem?_map]
+        cases (propagate nbrs start).faces[k]? <;> simp
+      rw [this]
+      rcases hinv.orig k with h | h
+      · exact Or.inr (by rw [h])
+      · exact Or.inl (by rw [h, List.reverse_reverse])
+  · exact ⟨not_lt.mp hneg, hinv.orig⟩
+
+/-- the same for `Polyhedron.sort_faces`: negating all plane offsets (`equations *= -1`) negates
+`Polyhedron.volume = Σ(−d·A)/3` (the areas are orientation independent) -/
+theorem poly_flip_negates_volume (eqs : List (Eqn ℝ)) (areas : List ℝ) :
+    polyVolume (eqs.map fun e => (-(e.1), -(e.2))) areas = -polyVolume eqs areas := by
+  unfold polyVolume Poly3.volume
+  simp only [Scalar.sum_real, Scalar.lit, Scalar.ofNat_real]
+  rw [← neg_div]
+  congr 1
+  induction eqs generalizing areas with
+  | nil => simp
+  | cons e eqs ih =>
+    cases areas with
+    | nil => simp
+    | cons a areas =>
+      simp only [List.map_cons, List.zipWith_cons_cons, List.sum_cons, ih areas]
+      ring
+
+/-- `get_dihedral` is symmetric in its two faces (when both directions are neighbours) -/
+theorem dihedral_symm (nbrs : List (List Nat)) (normals : List (V3 ℝ)) (a b : Nat)
+    (hab : (nbrs.getD a []).contains b = true) (hba : (nbrs.getD b []).contains a = true) :
+    getDihedral nbrs normals a b = getDihedral nbrs normals b a := by
+  unfold getDihedral
+  rw [if_pos hab, if_pos hba]
+  congr 2
+  unfold V3.dot
+  simp only [V3.neg_x, V3.neg_y, V3.neg_z]
+  ring
+
+/-- the angular sort of `ConvexPolyhedron.sort_faces` only permutes the vertices of the face
+(any rotation matrix, any coordinates) -/
+theorem cp_sort_face_perm (verts : List (V3 ℝ)) (face : Face) (R : M3 ℝ) :
+    (cpSortFace verts face R).Perm face := by
+  unfold cpSortFace
+  have hlen : (alignCentred R (face.map fun i => verts.getD i V3.zero)).length = face.length := by
+    simp [alignCentred]
+  have hperm : (angularOrder (alignCentred R (face.map fun i => verts.getD i V3.zero)) 0).Perm
+      (List.range face.length) := by
+    unfold angularOrder
+    rw [hlen]
+    exact sortBy_perm _ _
+  have hid : (List.range face.length).map (fun k => face.getD k 0) = face := by
+    apply List.ext_getElem
+    · simp
+    · intro i h1 h2
+      simp [List.getD_eq_getElem?_getD, h2]
+  exact (hperm.map _).trans (by rw [hid])
+
+end
+
+/-! ### `np.unique` / vertex unions -/
+
+/-- `np.unique` (faces of `_combine_simplices`, unions of `merge_faces`): strictly increasing, same
+elements -/
+theorem sorted_unique_spec (l : List Nat) :
+    (sortedUnique l).Pairwise (· < ·) ∧ ∀ x, x ∈ sortedUnique l ↔ x ∈ l :=
+  ⟨sortedUnique_strict l, mem_sortedUnique l⟩
+
+/-- **C07 merge_faces unions.** The merged face with label `l` consists exactly of the vertices
+of the faces carrying that label. -/
+theorem merged_faces_union (faces : List Face) (labels : List Nat) (l : Nat)
+    (hl : l < (dedup labels).length) (x : Nat) :
+    x ∈ (mergedFaces faces labels).getD l [] ↔
+      ∃ i, i < faces.length ∧ i < labels.length ∧ labels.getD i 0 = l ∧ x ∈ faces.getD i [] := by
+  unfold mergedFaces
+  rw [List.getD_eq_getElem?_getD, List.getElem?_map, List.getElem?_range hl]
+  simp only [Option.map_some, Option.getD_some, mem_sortedUnique, List.mem_flatMap, List.mem_filter,
+    beq_iff_eq]
+  constructor
+  · rintro ⟨⟨f, lab⟩, ⟨hmem, hlab⟩, hx⟩
+    obtain ⟨i, hi, hget⟩ := List.mem_iff_getElem.mp hmem
+    have hi' : i < faces.length ∧ i < labels.length := by
+      simpa [List.length_zip] using hi
+    rw [List.getElem_zip] at hget
+    simp only [Prod.mk.injEq] at hget
+    refine ⟨i, hi'.1, hi'.2, ?_, ?_⟩
+    · rw [List.getD_eq_getElem?_getD, List.getElem?_eq_getElem hi'.2]; simpa [hget.2] using hlab
+    · rw [List.getD_eq_getElem?_getD, List.getElem?_eq_getElem hi'.1]; simpa [hget.1] using hx
+  · rintro ⟨i, h1, h2, h3, h4⟩
+    refine ⟨(faces[i], labels[i]), ⟨?_, ?_⟩, ?_⟩
+    · exact List.mem_iff_getElem.mpr ⟨i, by simp [List.length_zip]; omega, by simp [List.getElem_zip]⟩
+    · rw [List.getD_eq_getElem?_getD, List.getElem?_eq_getElem h2] at h3; simpa using h3
+    · rw [List.getD_eq_getElem?_getD, List.getElem?_eq_getElem h1] at h4; simpa using h4
+
+/-! ### non-vacuity: the unit cube's face list (as `ConvexPolyhedron` produces it) -/
+
+/-- `cube.faces` of the docstring example in `convex_polyhedron.py` -/
+def cubeFaces : List Face :=
+  [[0, 2, 6, 4], [0, 4, 5, 1], [4, 6, 7, 5], [0, 1, 3, 2], [2, 3, 7, 6], [1, 5, 7, 3]]
+
+/-- the cube is a closed oriented surface: the hypothesis of `edges_once` is satisfiable -/
+theorem cube_closed_oriented : StructSpec.ClosedOriented cubeFaces := by
+  constructor <;> decide
+
+example : edges cubeFaces =
+    [(0, 1), (0, 2), (0, 4), (1, 3), (1, 5), (2, 3), (2, 6), (3, 7), (4, 5), (4, 6), (5, 7), (6, 7)] := by
+  decide
+
+example : 2 * numEdges cubeFaces = 24 ∧ numEdgesConvex 8 cubeFaces.length = numEdges cubeFaces := by decide
+
+/-- `cube.neighbors` of the docstring -/
+example : findNeighbors cubeFaces =
+    .ok [[1, 2, 3, 4], [0, 2, 3, 5], [0, 1, 4, 5], [0, 1, 4, 5], [0, 2, 3, 5], [1, 2, 3, 4]] := by
+  decide
+
+/-- `cube.neighbors` -/
+def cubeNeighbors : List (List Nat) :=
+  [[1, 2, 3, 4], [0, 2, 3, 5], [0, 1, 4, 5], [0, 1, 4, 5], [0, 2, 3, 5], [1, 2, 3, 4]]
+
+/-- the cube with four faces listed the wrong way round -/
+def cubeScrambled : List Face :=
+  [[0, 2, 6, 4], [1, 5, 4, 0], [4, 6, 7, 5], [2, 3, 1, 0], [6, 7, 3, 2], [3, 7, 5, 1]]
+
+example : findNeighbors cubeScrambled = .ok cubeNeighbors := by decide
+
+/-- the traversal restores a consistent orientation (here the original one, because face 0 was
+kept), empties its stack within the fuel and visits all six faces -/
+example : (propagate cubeNeighbors cubeScrambled).faces = cubeFaces ∧
+    (propagate cubeNeighbors cubeScrambled).stack = [] ∧
+    ∀ k, k < 6 → k ∈ (propagate cubeNeighbors cubeScrambled).visited := by
+  decide
+
+/-- the hypotheses of `propagation_orients_all` are satisfiable: the scrambled cube with the
+cube's own (outward) orientation as reference -/
+theorem cube_ref_orientation : StructSpec.RefOrientation cubeNeighbors cubeScrambled cubeFaces := by
+  constructor
+  · intro k
+    by_cases hk : k < 6
+    · have : ∀ k, k < 6 → (cubeFaces.getD k [] = cubeScrambled.getD k [] ∨
+          cubeFaces.getD k [] = (cubeScrambled.getD k []).reverse) := by decide
+      exact this k hk
+    · have h1 : cubeFaces.getD k [] = [] := by
+        simp [List.getD_eq_getElem?_getD, List.getElem?_eq_none (show cubeFaces.length ≤ k by simp [cubeFaces]; omega)]
+      have h2 : cubeScrambled.getD k [] = [] := by
+        simp [List.getD_eq_getElem?_getD, List.getElem?_eq_none (show cubeScrambled.length ≤ k by simp [cubeScrambled]; omega)]
+      rw [h1, h2]; exact Or.inl rfl
+  · intro u v hv
+    by_cases hu : u < 6
+    · have : ∀ u, u < 6 → ∀ v ∈ cubeNeighbors.getD u [],
+          (commonEdges (cubeFaces.getD u []) (cubeFaces.getD v [])) ≠ [] := by decide
+      exact commonEdges_ne_nil.mp (this u hu v hv)
+    · have : cubeNeighbors.getD u [] = [] := by
+        simp [List.getD_eq_getElem?_getD, List.getElem?_eq_none (show cubeNeighbors.length ≤ u by simp [cubeNeighbors]; omega)]
+      rw [this] at hv; simp at hv
+  · intro u v hv
+    by_cases hu : u < 6
+    · have : ∀ u, u < 6 → ∀ v ∈ cubeNeighbors.getD u [],
+          ∀ e ∈ StructSpec.dirEdges (cubeFaces.getD v []), e ∉ StructSpec.dirEdges (cubeFaces.getD u []) := by
+        decide
+      exact this u hu v hv
+    · have : cubeNeighbors.getD u [] = [] := by
+        simp [List.getD_eq_getElem?_getD, List.getElem?_eq_none (show cubeNeighbors.length ≤ u by simp [cubeNeighbors]; omega)]
+      rw [this] at hv; simp at hv
+
+/-- two faces sharing two edges: `_get_face_intersections` asserts -/
+example : findNeighbors [[0, 1, 2, 3], [3, 2, 1, 4]] = .error "AssertionError" := by decide
+
+/-- hypotheses of the plane theorems are satisfiable: bottom face of the cube seen from its centre -/
+example : StructSpec.CcwAwayFrom (⟨0, 0, 0⟩ : V3 ℝ) ⟨-1, -1, -1⟩ ⟨-1, 1, -1⟩ ⟨1, 1, -1⟩ := by
+  unfold StructSpec.CcwAwayFrom; unfold_model; norm_num
+
+/-- `merge_faces`: two triangles of a square with the same label are united -/
+example : mergedFaces [[0, 1, 2], [0, 2, 3], [4, 5, 6]] [0, 0, 1] = [[0, 1, 2, 3], [4, 5, 6]] := by decide
